@@ -8,6 +8,9 @@ statements — machine states.  Helper lemmas: `Proofs/LoaderPres.lean` (every r
 the loader), `Proofs/LoaderInv.lean` (`ModKept`: the module table only grows, names are kept and stay distinct).
 -/
 import ZnVerif.Proofs.LoaderInv
+import ZnVerif.Proofs.LoaderConst
+import ZnVerif.Proofs.LoaderBridge
+import ZnVerif.Properties.C15
 import ZnVerif.Proofs.ModulesDfs
 import ZnVerif.Proofs.Toy
 set_option linter.unusedSectionVars false
@@ -225,23 +228,28 @@ theorem interp_module_allocated_once (files : FileTable) (libs : LibTable) (fuel
 
 /-! ## imported names are read-only -/
 
-/-- the names an import statement binds: all exports of the module, or the listed names the module exports -/
-def boundNames (m : Module) (items : List Ident) : List String :=
-  if items.isEmpty then m.exports.map (·.1)
-  else (items.map (·.lit)).filter fun n => (lookup n m.exports).isSome
+/-- **Imported names are read-only.**  After a successful `bindImports` (the last step of `evalImportStmt`: all exports of the
+module in sorted order, or the listed ones in list order — `boundNames`) assigning ANY of the names it bound is error 44 and
+leaves the machine exactly as it is (the name keeps its value); names that were bound constants before (`names`: earlier
+imports of the same program, inputs) stay so. -/
+theorem interp_exports_are_const (ext : Nat) (items : List Ident) (s s' : VM ν) (m : Module)
+    (hm : s.modules[ext]? = some m) (h : bindImports ext items s = (.ok (), s')) :
+    ∀ name ∈ boundNames m items, ∀ w, setElement name w s' = (.err (.rt 44), s') := by
+  intro name hn w
+  have hb := bindImports_constBound ext items [] s s' m hm (fun x hx => by cases hx) h
+  exact hb.set_rejected name (by simpa using hn) w
 
-/-- FULL statement: after a successful `bindImports` (the last step of `evalImportStmt`) assigning ANY of the names it bound
-is error 44 and leaves the machine as it is. -/
-def interp_exports_are_const_full : Prop :=
-  ∀ (ν : Type) [NumOps ν] (ext : Nat) (items : List Ident) (s s' : VM ν) (m : Module),
-    s.modules[ext]? = some m → bindImports ext items s = (.ok (), s') →
-    ∀ name ∈ boundNames m items, ∀ w, setElement name w s' = (.err (.rt 44), s')
+/-- … and an earlier import's names are still constants after a later import statement of the same program section -/
+theorem interp_exports_stay_const (ext : Nat) (items : List Ident) (names : List String) (s s' : VM ν) (m : Module)
+    (hm : s.modules[ext]? = some m) (hb : ConstBound names s) (h : bindImports ext items s = (.ok (), s')) :
+    ∀ name ∈ names, ∀ w, setElement name w s' = (.err (.rt 44), s') := by
+  intro name hn w
+  have hb' := bindImports_constBound ext items names s s' m hm hb h
+  exact hb'.set_rejected name (List.mem_append_right _ hn) w
 
-/-- PROVED part: every single name an import binds is declared by `DeclareExternalElement` = `declareElement … true (some home)`,
-and right after such a declaration — and after any number of further constant declarations (the rest of the import list, later
-import statements: `ConstBound.declare`) — an assignment to the name is error 44 and changes nothing (the value stays).
-Missing for the full statement: the induction along `bindImports`' two loops (sorted export names / listed names). -/
-theorem interp_exports_are_const_partial (name : String) (v w : Addr) (home : Nat) (s s' : VM ν)
+/-- the single step: a name declared by `DeclareExternalElement` = `declareElement … true (some home)` rejects assignment right
+after the declaration and after one more constant declaration -/
+theorem interp_import_declaration_is_const (name : String) (v w : Addr) (home : Nat) (s s' : VM ν)
     (h : declareElement name v true (some (home : Int)) s = (.ok (), s')) :
     setElement name w s' = (.err (.rt 44), s') ∧
     ∀ (name2 : String) (v2 : Addr) (home2 : Option Int) (s'' : VM ν),
@@ -253,15 +261,291 @@ theorem interp_exports_are_const_partial (name : String) (v w : Addr) (home : Na
 
 /-! ## an import cycle through a module that is still loading -/
 
-/-- FULL statement: a module whose own import list names the module itself is error 63 (the edge `m → m` closes a cycle in
-the dependency graph the DFS runs over).  Stated, proved below on the concrete witness; the general proof needs the step-by-step
-unfolding of `execAnotherModule` → `evalProgram` → `evalImport` and `ModulesDfs.checkCircular_complete` on the self-loop. -/
-def interp_self_import_63_full : Prop :=
-  ∀ (ν : Type) [NumOps ν] (files : FileTable) (libs : LibTable) (fuel k : Nat) (name path : String) (prog : Program)
-    (im : Import) (rest : List Import) (s : VM ν),
-    isStdName name = false → findModuleByName name s = none → modulePath name = some path →
-    lookup path files = some prog → prog.imports = im :: rest → im.name = some name →
-    (loadModule files libs fuel (k+1) name s).1 = .err (.rt 63)
+theorem atImport_cs (im : Import) (s : VM ν) : (atImport im s).csModuleID = s.csModuleID := by
+  unfold atImport setTopFrame modifyVM; simp only; split <;> rfl
+theorem atImport_graph (im : Import) (s : VM ν) : (atImport im s).graph = s.graph := by
+  unfold atImport setTopFrame modifyVM; simp only; split <;> rfl
+
+theorem fst_err_bind {α β : Type} {m : M ν α} {f : α → M ν β} {s : VM ν} {e : Err} (h : (m s).1 = .err e) :
+    ((m >>= f) s).1 = .err e := by
+  rw [M_bind_def]
+  rcases hm : m s with ⟨r, s'⟩
+  rw [hm] at h
+  simp only at h
+  subst h
+  rfl
+
+open ZnVerif.Spec.ModuleSem (Walk HasCycle) in
+/-- a dependency graph with a self-loop: the DFS of `CheckDepedency` answers "cycle" -/
+theorem checkCircular_self_loop (g : List (Int × Int)) (a : Int) (h : (a, a) ∈ g) :
+    Modules.checkCircular (natGraph g) (Modules.nodes (natGraph g)) = some true := by
+  apply ZnVerif.Proofs.ModulesDfs.checkCircular_complete _ _ (fun v hv => hv)
+  refine ⟨(a + 1).toNat, (a + 1).toNat, ?_, Walk.refl _⟩
+  unfold natGraph
+  exact List.mem_map.2 ⟨(a, a), h, rfl⟩
+
+/-- An import, by the CURRENT module, of its own name (the module is allocated and its frame is on top: it is loading or
+running) is error 63: `AddModuleDependency` records the edge `m → m`, and the DFS over the whole graph finds the loop — whatever
+else the graph contains, whatever the loader would do. -/
+theorem interp_import_of_current_module_63 (libs : LibTable) (load : String → M ν Nat) (im : Import) (name : String)
+    (t : VM ν) (i : Nat) (hn : im.name = some name) (hstd : isStdName name = false)
+    (hfound : findModuleByName name t = some i) (hcs : t.csModuleID = (i : Int)) :
+    (evalImport libs load im t).1 = .err (.rt 63) := by
+  rw [evalImport_start]
+  simp only [hn, hstd, Bool.false_eq_true, if_false]
+  rw [bind_ok (show getVM (atImport im t) = (.ok (atImport im t), atImport im t) from rfl)]
+  simp only [atImport_find, hfound]
+  rw [bind_ok (m := addModuleDependency i) (a := ())
+    (s' := { atImport im t with graph := (atImport im t).graph ++ [((atImport im t).csModuleID, (i : Int))] }) rfl]
+  rw [bind_ok (m := (pure i : M ν Nat)) (a := i)
+    (s' := { atImport im t with graph := (atImport im t).graph ++ [((atImport im t).csModuleID, (i : Int))] }) rfl]
+  apply fst_err_bind
+  unfold checkDependency
+  have hf : findModuleByName name
+      ({ atImport im t with graph := (atImport im t).graph ++ [((atImport im t).csModuleID, (i : Int))] } : VM ν) = some i := by
+    have : findModuleByName name
+        ({ atImport im t with graph := (atImport im t).graph ++ [((atImport im t).csModuleID, (i : Int))] } : VM ν) =
+        findModuleByName name (atImport im t) := rfl
+    rw [this, atImport_find, hfound]
+  simp only [hf]
+  rw [checkCircular_self_loop _ (i : Int) (by rw [atImport_cs, hcs]; simp)]
+
+/-- **A module that imports itself is error 63**, for every file table: loading `name` (not allocated yet, its file exists)
+whose program's first import statement names `name` again ends with the circular-dependency error, before any statement of the
+module's body runs (nothing is displayed). -/
+theorem interp_self_import_63 (files : FileTable) (libs : LibTable) (fuel k : Nat) (name path : String) (prog : Program)
+    (im : Import) (rest : List Import) (s : VM ν)
+    (hstd : isStdName name = false) (hfresh : findModuleByName name s = none) (hpath : modulePath name = some path)
+    (hfile : lookup path files = some prog) (himps : prog.imports = im :: rest) (hself : im.name = some name) :
+    (loadModule files libs fuel (k+1) name s).1 = .err (.rt 63) := by
+  rw [loadModule]
+  unfold execAnotherModule
+  simp only [hpath, hfile]
+  obtain ⟨ha, _, hfound⟩ := interp_load_allocates_fresh name s hfresh
+  rw [bind_ok ha]
+  have hp := pushFrame_run (ν := ν) { moduleId := (s.modules.size : Int), callType := 1 } (allocateModule name true s).2
+  rw [bind_ok (a := ()) (s' := (pushFrame { moduleId := (s.modules.size : Int), callType := 1 } (allocateModule name true s).2).2)
+    (by rw [← hp.1])]
+  apply fst_err_bind
+  unfold evalProgram
+  apply fst_err_bind
+  rw [himps]
+  show ((evalImport libs (loadModule files libs fuel k) im >>= fun _ => rest.forM _) _).1 = _
+  apply fst_err_bind
+  apply interp_import_of_current_module_63 libs _ im name _ s.modules.size hself hstd
+  · unfold findModuleByName at hfound ⊢
+    rw [hp.2.2.2.2.2.2]; exact hfound
+  · exact hp.2.2.1
+
+/-! ### cycles through modules that are still loading -/
+
+open ZnVerif.Spec.ModuleSem (Walk HasCycle) in
+/-- An import of an allocated module `i` from which the dependency graph already leads to the CURRENT module (in particular:
+a module that is still loading further down the import stack) is error 63: the new edge `current → i` closes the cycle. -/
+theorem interp_import_closing_cycle_63 (libs : LibTable) (load : String → M ν Nat) (im : Import) (name : String)
+    (t : VM ν) (i : Nat) (hn : im.name = some name) (hstd : isStdName name = false)
+    (hfound : findModuleByName name t = some i)
+    (hwalk : Walk (natGraph t.graph) ((i : Int) + 1).toNat (t.csModuleID + 1).toNat) :
+    (evalImport libs load im t).1 = .err (.rt 63) := by
+  rw [evalImport_start]
+  simp only [hn, hstd, Bool.false_eq_true, if_false]
+  rw [bind_ok (show getVM (atImport im t) = (.ok (atImport im t), atImport im t) from rfl)]
+  simp only [atImport_find, hfound]
+  rw [bind_ok (m := addModuleDependency i) (a := ())
+    (s' := { atImport im t with graph := (atImport im t).graph ++ [((atImport im t).csModuleID, (i : Int))] }) rfl]
+  rw [bind_ok (m := (pure i : M ν Nat)) (a := i)
+    (s' := { atImport im t with graph := (atImport im t).graph ++ [((atImport im t).csModuleID, (i : Int))] }) rfl]
+  apply fst_err_bind
+  unfold checkDependency
+  have hf : findModuleByName name
+      ({ atImport im t with graph := (atImport im t).graph ++ [((atImport im t).csModuleID, (i : Int))] } : VM ν) = some i := by
+    have : findModuleByName name
+        ({ atImport im t with graph := (atImport im t).graph ++ [((atImport im t).csModuleID, (i : Int))] } : VM ν) =
+        findModuleByName name (atImport im t) := rfl
+    rw [this, atImport_find, hfound]
+  simp only [hf]
+  rw [ZnVerif.Proofs.ModulesDfs.checkCircular_complete _ _ (fun v hv => hv)]
+  refine ⟨(t.csModuleID + 1).toNat, ((i : Int) + 1).toNat, ?_, ?_⟩
+  · unfold natGraph
+    rw [atImport_cs, atImport_graph]
+    exact List.mem_map.2 ⟨(t.csModuleID, (i : Int)), by simp, rfl⟩
+  · refine ZnVerif.Proofs.ModulesDfs.Walk.mono ?_ hwalk
+    intro e he
+    unfold natGraph at he ⊢
+    rw [atImport_graph, List.map_append]
+    exact List.mem_append_left _ he
+
+/-- the machine in which the program of a freshly allocated module starts: entry appended, script frame pushed -/
+def loadStart (name : String) (s : VM ν) : VM ν :=
+  (pushFrame { moduleId := (s.modules.size : Int), callType := 1 } (allocateModule name true s).2).2
+
+theorem loadStart_facts (name : String) (s : VM ν) (hfresh : findModuleByName name s = none) :
+    findModuleByName name (loadStart name s) = some s.modules.size ∧
+    modNames (loadStart name s) = modNames s ++ [name] ∧
+    (loadStart name s).csModuleID = (s.modules.size : Int) ∧
+    (loadStart name s).graph = (if s.csModuleID ≥ 0 then s.graph ++ [(s.csModuleID, (s.modules.size : Int))] else s.graph) ∧
+    (loadStart name s).out = s.out := by
+  obtain ⟨ha, hnames, hfound⟩ := interp_load_allocates_fresh name s hfresh
+  have hp := pushFrame_run (ν := ν) { moduleId := (s.modules.size : Int), callType := 1 } (allocateModule name true s).2
+  have hg : (allocateModule name true s).2.graph =
+      (if s.csModuleID ≥ 0 then s.graph ++ [(s.csModuleID, (s.modules.size : Int))] else s.graph) ∧
+      (allocateModule name true s).2.out = s.out := by
+    unfold allocateModule; rw [hfresh]; exact ⟨rfl, rfl⟩
+  refine ⟨?_, ?_, hp.2.2.1, ?_, ?_⟩
+  · unfold loadStart findModuleByName at *
+    rw [hp.2.2.2.2.2.2]; exact hfound
+  · unfold loadStart modNames at *
+    rw [hp.2.2.2.2.2.2]; exact hnames
+  · unfold loadStart
+    have : (pushFrame { moduleId := (s.modules.size : Int), callType := 1 } (allocateModule name true s).2).2.graph =
+        (allocateModule name true s).2.graph := by
+      unfold pushFrame modifyVM; simp only; split <;> simp [putScope] <;> split <;> rfl
+    rw [this, hg.1]
+  · unfold loadStart; rw [hp.2.2.2.2.1, hg.2]
+
+/-- loading a fresh module whose file exists: a failure of its FIRST import statement is the failure of the load -/
+theorem load_first_import_err (files : FileTable) (libs : LibTable) (fuel k : Nat) (name path : String) (prog : Program)
+    (im : Import) (rest : List Import) (s : VM ν) (e : Err)
+    (hfresh : findModuleByName name s = none) (hpath : modulePath name = some path)
+    (hfile : lookup path files = some prog) (himps : prog.imports = im :: rest)
+    (h : (evalImport libs (loadModule files libs fuel k) im (loadStart name s)).1 = .err e) :
+    (loadModule files libs fuel (k+1) name s).1 = .err e := by
+  rw [loadModule]
+  unfold execAnotherModule
+  simp only [hpath, hfile]
+  obtain ⟨ha, _, _⟩ := interp_load_allocates_fresh name s hfresh
+  rw [bind_ok ha]
+  have hp := pushFrame_run (ν := ν) { moduleId := (s.modules.size : Int), callType := 1 } (allocateModule name true s).2
+  rw [bind_ok (a := ()) (s' := loadStart name s) (by unfold loadStart; rw [← hp.1])]
+  apply fst_err_bind
+  unfold evalProgram
+  apply fst_err_bind
+  rw [himps]
+  show ((evalImport libs (loadModule files libs fuel k) im >>= fun _ => rest.forM _) _).1 = _
+  exact fst_err_bind h
+
+open ZnVerif.Spec.ModuleSem (Walk HasCycle) in
+/-- **甲 ↔ 乙 is error 63, for every file table**: loading `a` (fresh, file exists) whose first import names `b` (fresh, another
+name, file exists) whose first import names `a` again ends with the circular-dependency error; no statement of either body runs. -/
+theorem interp_two_module_cycle_63 (files : FileTable) (libs : LibTable) (fuel k : Nat) (a b pa pb : String)
+    (proga progb : Program) (ima imb : Import) (resta restb : List Import) (s : VM ν)
+    (hab : a ≠ b) (hstda : isStdName a = false) (hstdb : isStdName b = false)
+    (hfa : findModuleByName a s = none) (hfb : findModuleByName b s = none)
+    (hpa : modulePath a = some pa) (hpb : modulePath b = some pb)
+    (hfilea : lookup pa files = some proga) (hfileb : lookup pb files = some progb)
+    (hia : proga.imports = ima :: resta) (hib : progb.imports = imb :: restb)
+    (hna : ima.name = some b) (hnb : imb.name = some a) :
+    (loadModule files libs fuel (k+2) a s).1 = .err (.rt 63) := by
+  apply load_first_import_err files libs fuel (k+1) a pa proga ima resta s _ hfa hpa hfilea hia
+  obtain ⟨ga1, ga2, ga3, ga4, _⟩ := loadStart_facts a s hfa
+  -- the import of `b` inside `a`: `b` is not allocated, so it is loaded
+  rw [evalImport_start]
+  simp only [hna, hstdb, Bool.false_eq_true, if_false]
+  rw [bind_ok (show getVM (atImport ima (loadStart a s)) = (.ok _, atImport ima (loadStart a s)) from rfl)]
+  have hfb' : findModuleByName b (atImport ima (loadStart a s)) = none := by
+    rw [atImport_find, findModuleByName_none_iff, ga2]
+    intro hm
+    rcases List.mem_append.1 hm with hm | hm
+    · exact (findModuleByName_none_iff b s).1 hfb hm
+    · simp at hm; exact hab hm.symm
+  simp only [hfb']
+  apply fst_err_bind
+  -- loading `b` from there: its first import names `a`, which is the module below it on the import stack
+  have hfa' : findModuleByName a (atImport ima (loadStart a s)) = some s.modules.size := by rw [atImport_find]; exact ga1
+  apply load_first_import_err files libs fuel k b pb progb imb restb _ _ hfb' hpb hfileb hib
+  obtain ⟨gb1, gb2, gb3, gb4, _⟩ := loadStart_facts b (atImport ima (loadStart a s)) hfb'
+  have hkept : findModuleByName a (loadStart b (atImport ima (loadStart a s))) = some s.modules.size := by
+    have hk : ModKept (atImport ima (loadStart a s)) (loadStart b (atImport ima (loadStart a s))) :=
+      ⟨⟨[b], gb2⟩, fun _ => by
+        rw [gb2]
+        exact List.nodup_append.2 ⟨‹_›, List.nodup_cons.2 ⟨by simp, List.nodup_nil⟩, by
+          intro x hx y hy
+          simp only [List.mem_singleton] at hy
+          subst hy
+          intro hxy; subst hxy
+          exact (findModuleByName_none_iff _ _).1 hfb' hx⟩⟩
+    exact findModuleByName_kept hk hfa'
+  apply interp_import_closing_cycle_63 libs _ imb a _ s.modules.size hnb hstda hkept
+  -- the edge a → b was recorded when `b` was allocated with `a` current
+  rw [gb3, gb4, atImport_cs, ga3]
+  have hnn : ((s.modules.size : Int) ≥ 0) := Int.natCast_nonneg _
+  simp only [hnn, if_true]
+  refine Walk.cons ?_ (Walk.refl _)
+  unfold natGraph
+  rw [List.map_append]
+  exact List.mem_append_right _ (by simp)
+
+/-! ## the cycle check of the evaluator's loader is the DFS of `Model/Modules` — C15's DFS theorems transfer -/
+
+open ZnVerif.Spec.ModuleSem (Walk HasCycle) in
+/-- `CheckDepedency` in the evaluator model decides "the dependency graph has a cycle": for an allocated name it answers error 63
+exactly when the graph (over module ids) has a cycle, succeeds exactly when it has none, and never runs out of fuel — the
+evaluator's loader calls the very `Modules.checkCircular` that `C15.dfs_sound` / `dfs_complete` / `dfs_total` are about. -/
+theorem interp_dependency_check_decides_cycle (name : String) (s : VM ν) (i : Nat) (h : findModuleByName name s = some i) :
+    (HasCycle (natGraph s.graph) → checkDependency name s = (.err (.rt 63), s)) ∧
+    (¬ HasCycle (natGraph s.graph) → checkDependency name s = (.ok (), s)) := by
+  unfold checkDependency
+  simp only [h]
+  constructor
+  · intro hc
+    rw [ZnVerif.Proofs.ModulesDfs.checkCircular_complete _ _ (fun v hv => hv) hc]
+  · intro hc
+    obtain ⟨b, hb⟩ := ZnVerif.Proofs.ModulesDfs.checkCircular_total (natGraph s.graph) (Modules.nodes (natGraph s.graph))
+    cases b with
+    | true => exact absurd (ZnVerif.Proofs.ModulesDfs.checkCircular_sound _ _ hb) hc
+    | false => rw [hb]
+
+/-! ## the bridge to the abstract loader of `Model/Modules.lean` (stated; checked on instances) -/
+
+section bridge
+open ZnVerif.Proofs.LoaderBridge
+open ZnVerif.Model.Modules (Oracle Files Libs Path ModuleSrc)
+
+/-- inside the fragment both models speak about: names are texts (every code point a character), path segments hold no `/`,
+no two files share a path, no import names the reserved main module (C15's `NoReserved`) -/
+def TableOK (files : Files) : Prop :=
+  (∀ f ∈ files, ∀ seg ∈ f.1, ∀ c ∈ seg, c.isValidChar ∧ c ≠ 0x2F) ∧
+  (∀ f ∈ files, ∀ i ∈ f.2.imports, ∀ c ∈ i.name, c.isValidChar) ∧
+  (files.map (·.1)).Nodup ∧ ZnVerif.Proofs.Modules.NoReserved files
+
+/-- the two loaders agree on one file table: final error code, modules in allocation order (= the order in which module
+programs are entered; with once-only loading, the sequence of body starts is a function of it), displayed markers — whenever
+neither run stopped on fuel or a panic.  (A computable test, so that instances are checked by evaluation.) -/
+def agreeB (ν : Type) [NumOps ν] (files : Files) (libs : Libs) (callFuel fuel : Nat) (mainPath : Path) : Bool :=
+  match Modules.assoc mainPath files with
+  | none => true
+  | some src =>
+    let o := Modules.run .repaired Oracle.default files libs callFuel mainPath
+    let r := runProgramWith (toFileTable files) (toLibTable libs) fuel (toProgram src) [] (initVM (ν := ν) ())
+    decide (absCode o = none) || decide (interpCode r.1 = none) ||
+      (decide (absCode o = interpCode r.1) && decide (absModules o = interpModules r.2) && decide (absTrace o = interpTrace r.2))
+
+def Simulates (ν : Type) [NumOps ν] (files : Files) (libs : Libs) (callFuel fuel : Nat) (mainPath : Path) : Prop :=
+  agreeB ν files libs callFuel fuel mainPath = true
+
+/-- FULL bridge: on every file table of the fragment the evaluator's loader and the abstract loader agree (then every theorem of
+`Properties/C15.lean` about `Modules.run` — `cycle_reported`, `body_runs_at_most_once`, `imports_before_body`,
+`imported_method_sees_home_module` — speaks about the evaluator model).  NOT proved. -/
+def interp_loader_simulates_modules_full : Prop :=
+  ∀ (ν : Type) [NumOps ν] (files : Files) (libs : Libs) (callFuel fuel : Nat) (mainPath : Path),
+    TableOK files → Simulates ν files libs callFuel fuel mainPath
+
+/-- first half: file tables whose modules consist of import statements only (no exec block).  NOT proved in general either (the
+simulation relation between the two VMs — module table, name map, graph, scopes by module id — and the two `splitOn`s remain to
+be written down); what is proved: both loaders run the SAME DFS (`interp_dependency_check_decides_cycle`), the evaluator-side
+twins of the abstract loader's theorems above, and the instances below. -/
+def interp_loader_simulates_modules_imports_only_full : Prop :=
+  ∀ (ν : Type) [NumOps ν] (files : Files) (libs : Libs) (callFuel fuel : Nat) (mainPath : Path),
+    TableOK files → (∀ f ∈ files, f.2.body = []) → Simulates ν files libs callFuel fuel mainPath
+
+open ZnVerif.Properties.C15.Examples in
+/-- instances of the bridge, bodies included: C15's cyclic table (63), diamond (丙 once) and sibling table (an imported method
+calls a sibling method and constructs a sibling type of its home module) -/
+example : Simulates Int cyclic [] 8 60 pMain ∧ Simulates Int diamond [] 8 60 pMain ∧ Simulates Int sibling [] 8 60 pMain := by
+  unfold Simulates
+  decide +kernel
+
+end bridge
 
 /-! ## non-vacuity: concrete runs -/
 
